@@ -60,7 +60,69 @@ func genCase(t *rapid.T) Case {
 			c.Texts = append([][]byte{c.Texts[0], e}, c.Texts[1:]...)
 		}
 	}
+	if rapid.IntRange(0, 4).Draw(t, "hollowed") == 0 {
+		// T1, then T1 with its innermost objects written as {}: an empty
+		// object merges into what is there and changes nothing.
+		if e := hollowObjects(c.Texts[0]); e != nil {
+			c.Texts = append([][]byte{c.Texts[0], e}, c.Texts[1:]...)
+		}
+	}
 	return c
+}
+
+// hollowObjects rewrites every non-empty object below the top level that has
+// no object among its member values as {} (nil if the text does not parse or
+// nothing was rewritten).
+func hollowObjects(in []byte) []byte {
+	n, err := ref.Parse(in, popt)
+	if err != nil {
+		return nil
+	}
+	var out []byte
+	changed := false
+	var walk func(n *ref.Node, depth int)
+	walk = func(n *ref.Node, depth int) {
+		switch n.Kind {
+		case '[':
+			out = append(out, '[')
+			for i, e := range n.Elems {
+				if i > 0 {
+					out = append(out, ',')
+				}
+				walk(e, depth+1)
+			}
+			out = append(out, ']')
+		case '{':
+			inner := false
+			for _, m := range n.Members {
+				if m.Value.Kind == '{' {
+					inner = true
+				}
+			}
+			if depth > 0 && !inner && len(n.Members) > 0 {
+				out = append(out, '{', '}')
+				changed = true
+				return
+			}
+			out = append(out, '{')
+			for i, m := range n.Members {
+				if i > 0 {
+					out = append(out, ',')
+				}
+				out = append(out, in[m.Name.Start:m.Name.End]...)
+				out = append(out, ':')
+				walk(m.Value, depth+1)
+			}
+			out = append(out, '}')
+		default:
+			out = append(out, in[n.Start:n.End]...)
+		}
+	}
+	walk(n, 0)
+	if !changed {
+		return nil
+	}
+	return out
 }
 
 // emptyArrays rewrites every array of a text as [] (nil if the text does not parse).
